@@ -536,6 +536,35 @@ def ImportDesc.importString (i : ImportDesc) : Name :=
   if i.aliasIsPkgName then "\"".toList ++ i.path ++ "\"".toList
   else i.alias ++ " \"".toList ++ i.path ++ "\"".toList
 
+/-- the import declaration `ImportString` prints, as syntax: the explicit name (if one is written)
+and the import path -/
+def ImportDesc.importSpec (i : ImportDesc) : Option Name × Name :=
+  if i.aliasIsPkgName then (none, i.path) else (some i.alias, i.path)
+
+/-- text of an import declaration -/
+def printSpec (s : Option Name × Name) : Name :=
+  match s.1 with
+  | some a => a ++ " \"".toList ++ s.2 ++ "\"".toList
+  | none => "\"".toList ++ s.2 ++ "\"".toList
+
+/-- Go spec, import declarations: the identifier an import declaration binds in the file block is
+its explicit name if it has one, otherwise the name in the package clause of the imported package
+(`decl path`) - which need not be the last element of the import path (`m/pkg/v2`, `package pkg`) -/
+def boundName (decl : Name → Name) (s : Option Name × Name) : Name :=
+  match s.1 with
+  | some a => a
+  | none => decl s.2
+
+/-- the identifier that the import line printed for `i` binds -/
+def ImportDesc.bound (decl : Name → Name) (i : ImportDesc) : Name := boundName decl i.importSpec
+
+/-- which package a qualifier refers to in a file whose import block is the `ImportString()` of
+every entry of `act` (`resolveAlias` reads the `Alias` fields instead) -/
+def resolveBound (decl : Name → Name) (act : List ImportDesc) (a : Name) : Option Name :=
+  match act.filter (fun i => i.bound decl = a) with
+  | [i] => some i.path
+  | _ => none
+
 /-- `path.Base` for the non-empty slash-separated import paths used here -/
 def pathBase (p : Name) : Name := ((p.splitOn '/').getLast?).getD p
 
